@@ -496,7 +496,7 @@ func nodeOpts(sp *Spec, n *NodeSpec, path string, bo *BuildOpts, skipOutputKey .
 	if n.OutputKey != "" && len(skipOutputKey) == 0 {
 		opts = append(opts, compose.WithOutputKey(n.OutputKey))
 	}
-	if n.Kind == "graph" {
+	if n.Kind == "graph" && !n.ViaLambda {
 		opts = append(opts, compose.WithGraphCompileOptions(compileOpts(n.Sub, nil, false)...))
 	}
 	if n.Kind != "pass" {
@@ -624,6 +624,13 @@ func addNode(g nodeAdder, sp *Spec, n *NodeSpec, path string, bo *BuildOpts) err
 	case "pass":
 		return g.AddPassthroughNode(n.Key, opts...)
 	case "graph":
+		if n.ViaLambda {
+			l, err := graphLambda(n, path, bo)
+			if err != nil {
+				return err
+			}
+			return g.AddLambdaNode(n.Key, l, opts...)
+		}
 		sub, err := BuildAny(n.Sub, path+n.Key+"/", bo)
 		if err != nil {
 			return err
@@ -667,6 +674,14 @@ func buildWorkflow[I, O any](sp *Spec, path string, bo *BuildOpts) (*compose.Wor
 		case "pass":
 			nodes[n.Key] = wf.AddPassthroughNode(n.Key, opts...)
 		case "graph":
+			if n.ViaLambda {
+				l, err := graphLambda(n, path, bo)
+				if err != nil {
+					return nil, err
+				}
+				nodes[n.Key] = wf.AddLambdaNode(n.Key, l, opts...)
+				continue
+			}
 			sub, err := BuildAny(n.Sub, path+n.Key+"/", bo)
 			if err != nil {
 				return nil, err
@@ -830,6 +845,45 @@ func buildAnyT[I, O any](sp *Spec, path string, bo *BuildOpts) (compose.AnyGraph
 		return buildChain[I, O](sp, path, bo)
 	}
 	return nil, fmt.Errorf("bad mode %s", sp.Mode)
+}
+
+// graphLambda compiles the nested graph of a graph node on its own and wraps it into a lambda that runs it with
+// the node's context ("graph in a lambda": an interrupt inside still is a nested-graph interrupt of the enclosing
+// run) and adds context to the error it hands back.
+func graphLambda(n *NodeSpec, path string, bo *BuildOpts) (*compose.Lambda, error) {
+	switch n.Sub.In + n.Sub.Out {
+	case "SS":
+		return graphLambdaT[string, string](n, path, bo)
+	case "SM":
+		return graphLambdaT[string, map[string]any](n, path, bo)
+	case "MS":
+		return graphLambdaT[map[string]any, string](n, path, bo)
+	}
+	return graphLambdaT[map[string]any, map[string]any](n, path, bo)
+}
+
+func graphLambdaT[I, O any](n *NodeSpec, path string, bo *BuildOpts) (*compose.Lambda, error) {
+	ag, err := buildAnyT[I, O](n.Sub, path+n.Key+"/", bo)
+	if err != nil {
+		return nil, err
+	}
+	c, ok := ag.(compilable[I, O])
+	if !ok {
+		return nil, fmt.Errorf("built object %T is not compilable", ag)
+	}
+	r, err := c.Compile(context.Background(), compileOpts(n.Sub, nil, false)...)
+	if err != nil {
+		return nil, fmt.Errorf("compile nested graph of %s: %w", n.Key, err)
+	}
+	key := n.Key
+	return compose.InvokableLambda(func(ctx context.Context, in I) (O, error) {
+		out, err := r.Invoke(ctx, in)
+		if err != nil {
+			var z O
+			return z, fmt.Errorf("the graph run by node %s did not finish: %w", key, err)
+		}
+		return out, nil
+	}), nil
 }
 
 // ---- type-erased runner --------------------------------------------------------
